@@ -35,6 +35,7 @@ func runC04(c *Check) {
 	if ta == nil {
 		return
 	}
+	c.ruleNoMakeLenThenAppend("R7", "client", "spynode")
 	merkleValid := condEdge(func(cd Cond) (bool, bool) {
 		if cd.Call != nil && cd.Call.Call.IsInvoke() && cd.Call.Call.Method.Name() == "IsMerkleRootValid" {
 			return true, true
